@@ -153,6 +153,46 @@ def stream_trace(tid, ops, lg, accel):
     return lines, ncell, mech
 
 
+def lut_events(tid, ops, lg, accel):
+    """LutTrace events of one stream (DMA into the LUT area, operations with / without a table)."""
+    base = npuhw.lut_base(accel)
+    ev = [{"t": tid, "e": "Hdr", "reserved": npuhw.ACCEL[accel][0] > 16}]
+    any_lut = False
+    for o, c in zip(ops, lg["cmds"]):
+        regs = o["regs"]
+        if o["kind"] == "dma":
+            if npuhw.region_name(regs["NPU_SET_DMA0_DST_REGION"]) == npuhw.SHRAM:
+                a, n = regs["NPU_SET_DMA0_DST"] - base, regs["NPU_SET_DMA0_LEN"]
+                ev.append({"t": tid, "e": "Dma", "i": o["index"], "tab": c["in"]["sid"], "a": a // 256, "n": max(1, n // 256)})
+            continue
+        g = npuhw.geometry(o["kind"], regs)
+        if g["lut"] is not None and c.get("lut"):
+            any_lut = True
+            ev.append({"t": tid, "e": "Use", "i": o["index"], "tab": c["lut"]["sid"], "a": g["lut"],
+                       "n": max(1, npuhw.lut_size(regs, g) // 256)})
+        else:
+            ev.append({"t": tid, "e": "NonLut", "i": o["index"]})
+    return ev if any_lut else []
+
+
+def mc_lut(run, tier):
+    import os
+    for cfg, want in (("Lut_MC.cfg", "ok"), ("Lut_MC16.cfg", "ok"), ("Lut_Broken.cfg", "invariant")):
+        text = open(os.path.join(tlc.SPEC, cfg)).read()
+        if tier == "quick":
+            text = text.replace("MaxOps = 7", "MaxOps = 6")
+        tmp = "_tmp_%d_%s" % (os.getpid(), cfg)
+        with open(os.path.join(tlc.SPEC, tmp), "w") as f:
+            f.write(text)
+        try:
+            res = tlc.run("LutMC", tmp, workers=16, timeout=1500)
+        finally:
+            os.remove(os.path.join(tlc.SPEC, tmp))
+        if res["status"] != want:
+            raise MachineryError("Lut %s: expected %s, got %s\n%s" % (cfg, want, res["status"], res["output"][-1500:]))
+        run.add_mc("Lut/" + cfg, res)
+
+
 def jobs_for(tier, sd):
     n = 70 if tier == "quick" else 1400
     jobs = corpus.all_singles(sd)
@@ -182,9 +222,11 @@ def analyse_job(j, x):
 def main(tier):
     run = Run("C03", tier)
     sd = seed()
+    mc_lut(run, tier)
     jobs = jobs_for(tier, sd)
     rs = vela_run.compile_many(jobs, extractor=logical.extract)
     events, index, tid = [], {}, 0
+    lutev = []
     mech_count = collections.Counter()
     for j, x in zip(jobs, rs):
         if x["rc"] != 0 or "out_bytes" not in x:
@@ -194,6 +236,7 @@ def main(tier):
             run.evaluated()
             lines, ncell, mech = stream_trace(tid, s["ops"], lg, s["accel"])
             events += lines
+            lutev += lut_events(tid, s["ops"], lg, s["accel"])
             index[tid] = (j, s, lg)
             for m in mech:
                 mech_count[m] += 1
@@ -219,6 +262,20 @@ def main(tier):
             run.violation(key, "%s: %s read by operation %d (%s, %s) of %s with %s" % (
                 v[1], v[3], v[2], cmd.get("name"), cmd.get("op"), j["family"], j["opts"]),
                 {"net": j["net"], "opts": j["opts"], "violated": v[1:], "command": cmd})
+    # LUT-slot cache: the same streams against Lut.tla's hardware slots + compiler model
+    if lutev:
+        import re
+        res, viol = tlc.validate_traces("LutTrace", "LutTrace.cfg", lutev, timeout=1800)
+        run.add_trace_run("LutTrace", res, len({e["t"] for e in lutev}))
+        for v in viol:
+            j, s, lg = index[v[0]]
+            run.violation("UsesIntendedTable|slot%s|%s" % (v[3], j["family"].split(":")[0]),
+                          "UsesIntendedTable: operation %d of %s (%s) uses LUT slot %s which does not hold its table" % (
+                              v[2], j["family"], j["opts"], v[3]), {"net": j["net"], "opts": j["opts"], "violated": v[1:]})
+        m = re.search(r'<<\s*"DRIFT",\s*"((?:[^"\\\\]|\\\\.)*)"\s*>>', res["output"], re.S)
+        dr = json.loads(json.loads('"' + m.group(1).replace("\n", " ") + '"')) if m and m.group(1) else []
+        run.cov["lut_model_drift"] = {"total": len(dr), "examples": dr[:5],
+                                      "uses": sum(1 for e in lutev if e["e"] == "Use"), "dmas": sum(1 for e in lutev if e["e"] == "Dma")}
     # negative control: make one stream's first kernel operation read one byte further than what was defined
     ctrl = next((t for t in ids if any(e["t"] == t and e["e"] == "Kernel" and e["rd"] for e in events)), None)
     evs = [json.loads(json.dumps(e)) for e in events if e["t"] == ctrl]
